@@ -1,7 +1,686 @@
 package main
 
-// tryReplay attempts to turn a failed obligation into a concrete input and run it against the real
-// code. Returns extra fields for the replay record, or nil.
+import (
+	"encoding/json"
+	"fmt"
+	"go/types"
+	"os"
+	"os/exec"
+	"path/filepath"
+	"regexp"
+	"strconv"
+	"strings"
+)
+
+// Replay of a solver counterexample against the real code.
+//
+// Scope (stated in DESIGN.md I.3): a failed obligation whose solver verdict is `sat`, on a package-level function
+// without receiver whose parameters are strings, integers and booleans (named types included) and whose results are
+// strings, integers, booleans or errors. The parameter values are read from the solver's model (get-value on the
+// parameter terms; a string is its length and its bytes), the real function is called with them in a test injected
+// into its package with `go test -overlay`, and
+//   - for a safety obligation the replay confirms the violation when the call panics;
+//   - for a postcondition the clause is compiled to Go (identifiers, literals, comparison, boolean connectives,
+//     integer arithmetic, string concatenation/indexing/len, bounded integer quantifiers, pure spec functions with
+//     bodies, and the uninterpreted spec functions whose meaning is a standard-library function, see goBuiltins)
+//     and evaluated on the real arguments and results inside the same test; the replay confirms the violation when
+//     it evaluates to false.
+// Everything else (heap-dependent contracts, quantified models the solvers answer with unknown/timeout) is reported
+// without a failing input, as before.
+
+type replayArg struct {
+	Name  string `json:"name"`
+	GoLit string `json:"go_literal"`
+}
+
+var goBuiltins = map[string]string{
+	"replaceAll": "strings.ReplaceAll",
+	"strcat2":    "verifCat",
+	"trimmed":    "strings.TrimSpace",
+	"itoa":       "strconv.Itoa",
+	// specs/paths.gocl: each symbol names the result of the standard-library function on its arguments
+	"strContains":   "strings.Contains",
+	"strHasPrefix":  "strings.HasPrefix",
+	"strHasSuffix":  "strings.HasSuffix",
+	"pathClean":     "path.Clean",
+	"isCleanPath":   "verifIsClean",
+	"pathIsAbs":     "path.IsAbs",
+	"filepathIsAbs": "filepath.IsAbs",
+	"splitCount":    "verifSplitCount",
+	"splitPart":     "verifSplitPart",
+	"joinPath":      "verifJoin",
+	"fromSlash":     "filepath.FromSlash",
+	"dirOf":         "filepath.Dir",
+}
+
+const goBuiltinHelpers = `
+var _ = strconv.Itoa
+var _ = strings.TrimSpace
+var _ = path.Clean
+var _ = filepath.Join
+
+var verifBound = int64(1)
+
+func verifCat(a, b string) string { return a + b }
+func verifIf(c bool, a, b func() any) any {
+	if c {
+		return a()
+	}
+	return b()
+}
+func verifIsClean(p string) bool               { return path.Clean(p) == p }
+func verifSplitCount(s, sep string) int64      { return int64(len(strings.Split(s, sep))) }
+func verifSplitPart(s, sep string, i int64) string { return strings.Split(s, sep)[i] }
+func verifJoin(a, b string) string              { return filepath.Join(a, b) }
+`
+
+type goCompiler struct {
+	w       *World
+	pkgPath string
+	vars    map[string]string // spec identifier -> Go expression
+	kinds   map[string]string // spec identifier -> "string" | "int" | "bool" | "error"
+	maxLen  string            // Go expression: bound for integer quantifiers
+	helpers map[string]string // pure function name -> Go source of its definition
+	err     error
+	strBytes map[byte]bool // bytes of the string literals seen by collectLiterals
+}
+
+func (c *goCompiler) fail(format string, args ...any) string {
+	if c.err == nil {
+		c.err = fmt.Errorf(format, args...)
+	}
+	return "false"
+}
+
+func specKind(t *TypeExpr) string {
+	if t == nil {
+		return ""
+	}
+	switch t.Kind {
+	case "name", "":
+		switch t.Name {
+		case "string":
+			return "string"
+		case "bool":
+			return "bool"
+		case "int", "int8", "int16", "int32", "int64", "uint", "uint8", "uint16", "uint32", "uint64", "uintptr", "byte", "rune":
+			return "int"
+		}
+	}
+	return ""
+}
+
+// expr compiles a GoCL expression to a Go expression. Integers are int64 throughout, strings are string.
+func (c *goCompiler) expr(e Expr) string {
+	switch x := e.(type) {
+	case EIdent:
+		if g, ok := c.vars[x.Name]; ok {
+			return g
+		}
+		return c.fail("identifier %s is not a parameter or result", x.Name)
+	case ESel:
+		if id, ok := x.X.(EIdent); ok {
+			if g, ok := c.vars[id.Name+"."+x.Name]; ok {
+				return g
+			}
+		}
+		return c.fail("selector .%s", x.Name)
+	case EInt:
+		return "int64(" + x.V + ")"
+	case EBool:
+		return strconv.FormatBool(x.V)
+	case EStr:
+		return strconv.Quote(x.V)
+	case ENil:
+		return "nil"
+	case EUnary:
+		switch x.Op {
+		case "!":
+			return "(!" + c.expr(x.X) + ")"
+		case "-":
+			return "(-" + c.expr(x.X) + ")"
+		}
+		return c.fail("unary %s", x.Op)
+	case EBinary:
+		l, r := c.expr(x.X), c.expr(x.Y)
+		switch x.Op {
+		case "==>":
+			return "(!(" + l + ") || (" + r + "))"
+		case "<==>":
+			return "((" + l + ") == (" + r + "))"
+		case "&&", "||", "==", "!=", "<", "<=", ">", ">=", "+", "-", "*":
+			return "(" + l + " " + x.Op + " " + r + ")"
+		}
+		return c.fail("operator %s", x.Op)
+	case ECond:
+		return "verifIf(" + c.expr(x.C) + ", func() any { return " + c.expr(x.A) + " }, func() any { return " + c.expr(x.B) + " })"
+	case EIndex:
+		return "int64(" + c.expr(x.X) + "[" + c.expr(x.I) + "])"
+	case ECall:
+		switch x.Fn {
+		case "len":
+			return "int64(len(" + c.expr(x.Args[0]) + "))"
+		case "substr":
+			if len(x.Args) == 3 {
+				return "(" + c.expr(x.Args[0]) + ")[" + c.expr(x.Args[1]) + ":" + c.expr(x.Args[2]) + "]"
+			}
+		case "old":
+			// the functions in scope have no heap effect and parameters are values: old(e) == e
+			return c.expr(x.Args[0])
+		}
+		var args []string
+		for _, a := range x.Args {
+			args = append(args, c.expr(a))
+		}
+		if pf := c.w.lookupPure(c.pkgPath, x.Fn); pf != nil && pf.Body != nil {
+			c.pure(pf)
+			return "verifPure_" + pf.Name + "(" + strings.Join(args, ", ") + ")"
+		}
+		if g, ok := goBuiltins[x.Fn]; ok {
+			if x.Fn == "itoa" && len(args) == 1 {
+				return "strconv.Itoa(int(" + args[0] + "))"
+			}
+			return g + "(" + strings.Join(args, ", ") + ")"
+		}
+		return c.fail("spec function %s has no executable meaning", x.Fn)
+	case EQuant:
+		// integer variables range over -1 .. bound (every index of every string in sight and one beyond either end)
+		body := c.exprWith(x.Vars, x.Body)
+		var b strings.Builder
+		b.WriteString("func() bool {\n")
+		for _, v := range x.Vars {
+			if specKind(v.T) != "int" {
+				return c.fail("quantifier over %s", v.T)
+			}
+			fmt.Fprintf(&b, "for %s := int64(-1); %s <= %s; %s++ {\n", "q_"+v.Name, "q_"+v.Name, c.maxLen, "q_"+v.Name)
+		}
+		if x.Forall {
+			b.WriteString("if !(" + body + ") {\nreturn false\n}\n")
+		} else {
+			b.WriteString("if " + body + " {\nreturn true\n}\n")
+		}
+		for range x.Vars {
+			b.WriteString("}\n")
+		}
+		if x.Forall {
+			b.WriteString("return true\n}()")
+		} else {
+			b.WriteString("return false\n}()")
+		}
+		return b.String()
+	}
+	return c.fail("expression form %T", e)
+}
+
+func (c *goCompiler) exprWith(vars []QVar, body Expr) string {
+	saved := map[string]string{}
+	for _, v := range vars {
+		saved[v.Name] = c.vars[v.Name]
+		c.vars[v.Name] = "q_" + v.Name
+	}
+	out := c.expr(body)
+	for _, v := range vars {
+		if saved[v.Name] == "" {
+			delete(c.vars, v.Name)
+		} else {
+			c.vars[v.Name] = saved[v.Name]
+		}
+	}
+	return out
+}
+
+func (c *goCompiler) pure(pf *PureFunc) {
+	if _, done := c.helpers[pf.Name]; done {
+		return
+	}
+	c.helpers[pf.Name] = "" // recursion guard
+	goT := map[string]string{"string": "string", "int": "int64", "bool": "bool"}
+	var ps []string
+	savedVars := c.vars
+	c.vars = map[string]string{}
+	for _, p := range pf.Params {
+		k := specKind(p.T)
+		if k == "" {
+			// named types of the repository whose underlying type is a string or an integer are written as such
+			k = "string"
+			if p.T != nil && p.T.Kind != "name" && p.T.Kind != "" {
+				c.fail("pure function %s: parameter type %s", pf.Name, p.T)
+			}
+		}
+		ps = append(ps, "p_"+p.Name+" "+goT[k])
+		c.vars[p.Name] = "p_" + p.Name
+	}
+	rk := specKind(pf.Ret)
+	if rk == "" {
+		rk = "string"
+	}
+	body := c.expr(pf.Body)
+	c.vars = savedVars
+	c.helpers[pf.Name] = fmt.Sprintf("func verifPure_%s(%s) %s { return %s }\n", pf.Name, strings.Join(ps, ", "), goT[rk], body)
+}
+
+func basicKindOf(t types.Type) string {
+	if t.String() == "error" {
+		return "error"
+	}
+	b, ok := t.Underlying().(*types.Basic)
+	if !ok {
+		return ""
+	}
+	switch {
+	case b.Info()&types.IsString != 0:
+		return "string"
+	case b.Info()&types.IsBoolean != 0:
+		return "bool"
+	case b.Info()&types.IsInteger != 0:
+		return "int"
+	}
+	return ""
+}
+
+var getValuePair = regexp.MustCompile(`\(\s*(\|[^|]*\||\([^()]*\)|[^\s()]+)\s+(\(-\s*\d+\)|-?\d+|true|false)\s*\)`)
+
+// modelValues runs the winning solver again with get-value on the given terms and returns their values in order.
+func modelValues(r *checkRun, vc *VC, o *Obligation, terms []string) ([]string, error) {
+	text := queryText(vc, o, terms)
+	dir := filepath.Join(verifDir, "work", fmt.Sprintf("%s-%d", r.cfg.Property, os.Getpid()))
+	os.MkdirAll(dir, 0o755)
+	file := filepath.Join(dir, "replay-model.smt2")
+	if err := os.WriteFile(file, []byte(text), 0o644); err != nil {
+		return nil, err
+	}
+	defer os.Remove(file)
+	for _, sp := range solvers {
+		if !strings.HasPrefix(sp.name, "z3") {
+			continue // cvc5 needs its own option order for models; the z3 versions suffice here
+		}
+		res := runSolver(sp, 30, file)
+		if res.status != "sat" {
+			continue
+		}
+		i := strings.Index(res.out, "sat")
+		ms := getValuePair.FindAllStringSubmatch(res.out[i+3:], -1)
+		if len(ms) < len(terms) {
+			continue
+		}
+		var vals []string
+		for _, m := range ms[:len(terms)] {
+			v := strings.NewReplacer("(", "", ")", "", " ", "").Replace(m[2])
+			vals = append(vals, v)
+		}
+		return vals, nil
+	}
+	return nil, fmt.Errorf("no model")
+}
+
+// collectLiterals gathers the bytes of the string literals of an expression (pure function bodies included): the
+// alphabet of the enumeration used when the solvers give no model.
+func (c *goCompiler) collectLiterals(e Expr, into map[byte]bool, seen map[string]bool) {
+	switch x := e.(type) {
+	case EStr:
+		for i := 0; i < len(x.V); i++ {
+			into[x.V[i]] = true
+			c.strBytes[x.V[i]] = true
+		}
+	case EInt:
+		if n, err := strconv.Atoi(x.V); err == nil && n >= 32 && n < 127 {
+			into[byte(n)] = true // byte values compared with s[i]
+		}
+	case EUnary:
+		c.collectLiterals(x.X, into, seen)
+	case EBinary:
+		c.collectLiterals(x.X, into, seen)
+		c.collectLiterals(x.Y, into, seen)
+	case ECond:
+		c.collectLiterals(x.C, into, seen)
+		c.collectLiterals(x.A, into, seen)
+		c.collectLiterals(x.B, into, seen)
+	case EIndex:
+		c.collectLiterals(x.X, into, seen)
+		c.collectLiterals(x.I, into, seen)
+	case EQuant:
+		c.collectLiterals(x.Body, into, seen)
+	case ECall:
+		for _, a := range x.Args {
+			c.collectLiterals(a, into, seen)
+		}
+		if pf := c.w.lookupPure(c.pkgPath, x.Fn); pf != nil && pf.Body != nil && !seen[pf.Name] {
+			seen[pf.Name] = true
+			c.collectLiterals(pf.Body, into, seen)
+		}
+	}
+}
+
 func tryReplay(r *checkRun, w *World, rep *FuncReport, o *Obligation) map[string]any {
-	return nil
+	if o.Kind != "post" && o.Kind != "safe" {
+		return nil
+	}
+	vc := rep.vc
+	fn, fc := vc.top, vc.contract
+	if fn == nil || fc == nil || fn.Signature.Recv() != nil || fn.Pkg == nil || len(fn.FreeVars) > 0 {
+		return nil
+	}
+	sig := fn.Signature
+	const maxStr = 48
+	imports := map[string]string{} // path -> name
+	qual := func(p *types.Package) string {
+		if p == fn.Pkg.Pkg {
+			return ""
+		}
+		imports[p.Path()] = p.Name()
+		return p.Name()
+	}
+	var terms []string
+	type pinfo struct {
+		name, kind, goType string
+		first              int
+	}
+	var ps []pinfo
+	for i := 0; i < sig.Params().Len(); i++ {
+		p := sig.Params().At(i)
+		k := basicKindOf(p.Type())
+		if k == "" || k == "error" {
+			return nil
+		}
+		cname := p.Name()
+		if i < len(fc.ParamNames) {
+			cname = fc.ParamNames[i]
+		}
+		tv, ok := vc.topParams[cname]
+		if !ok {
+			return nil
+		}
+		t, isTerm := tv.V.(Term)
+		if !isTerm {
+			return nil
+		}
+		ps = append(ps, pinfo{cname, k, types.TypeString(p.Type(), qual), len(terms)})
+		if k == "string" {
+			terms = append(terms, vc.strLen(t).S)
+			for j := 0; j < maxStr; j++ {
+				terms = append(terms, vc.strAt(t, IntLit(int64(j))).S)
+			}
+		} else {
+			terms = append(terms, t.S)
+		}
+	}
+	var rkinds []string
+	for i := 0; i < sig.Results().Len(); i++ {
+		k := basicKindOf(sig.Results().At(i).Type())
+		if k == "" {
+			return nil
+		}
+		rkinds = append(rkinds, k)
+	}
+	// 1. the solver's model, when there is one
+	var args []replayArg
+	note := ""
+	if o.Result == "sat" {
+		vals, err := modelValues(r, vc, o, terms)
+		if err != nil {
+			note = "no model could be read back from the solver: " + err.Error()
+		} else {
+			for _, p := range ps {
+				switch p.kind {
+				case "string":
+					n, _ := strconv.Atoi(vals[p.first])
+					if n > maxStr {
+						note = fmt.Sprintf("the model's value of %s is %d bytes long (limit %d)", p.name, n, maxStr)
+						break
+					}
+					bs := make([]byte, n)
+					for j := 0; j < n; j++ {
+						b, _ := strconv.Atoi(vals[p.first+1+j])
+						bs[j] = byte(b)
+					}
+					args = append(args, replayArg{p.name, strconv.Quote(string(bs))})
+				default:
+					args = append(args, replayArg{p.name, vals[p.first]})
+				}
+			}
+			if note != "" {
+				args = nil
+			}
+		}
+	}
+	// 2. the clause and the preconditions, compiled to Go
+	comp := &goCompiler{w: w, pkgPath: vc.pkgOf(fc), vars: map[string]string{}, helpers: map[string]string{}, maxLen: "verifBound", strBytes: map[byte]bool{'a': true}}
+	for i, p := range ps {
+		comp.vars[p.name] = fmt.Sprintf("a%d", i)
+	}
+	pre := "true"
+	for _, c := range fc.Requires {
+		pre += " && " + comp.expr(c.E)
+	}
+	if comp.err != nil {
+		return map[string]any{"replay_note": "a precondition cannot be evaluated on concrete values: " + comp.err.Error()}
+	}
+	for i, k := range rkinds {
+		g := fmt.Sprintf("r%d", i)
+		switch k {
+		case "string":
+			g = "string(" + g + ")"
+		case "int":
+			g = "int64(" + g + ")"
+		}
+		comp.vars[fmt.Sprintf("result.%d", i)] = g
+		if i < len(fc.ResultNames) && fc.ResultNames[i] != "" {
+			comp.vars[fc.ResultNames[i]] = g
+		}
+		if len(rkinds) == 1 {
+			comp.vars["result"] = g
+		}
+	}
+	check, checked := "true", ""
+	alphabet := map[byte]bool{'a': true, '0': true}
+	if o.Kind == "post" {
+		var clause *Clause
+		for i := range fc.Ensures {
+			n := clauseName("post", i, fc.Ensures[i])
+			if strings.Contains(o.Name, "#"+n+"@") || strings.HasSuffix(o.Name, "#"+n) || strings.Contains(o.Name, "#"+n+"~") {
+				clause = &fc.Ensures[i]
+			}
+		}
+		if clause == nil {
+			return map[string]any{"replay_note": "clause of the obligation not found"}
+		}
+		check = comp.expr(clause.E)
+		checked = clause.Src
+		if comp.err != nil {
+			return map[string]any{"replay_note": "the clause cannot be evaluated on concrete values: " + comp.err.Error(), "model_input": args}
+		}
+	}
+	seen := map[string]bool{}
+	for _, c := range fc.Ensures {
+		comp.collectLiterals(c.E, alphabet, seen)
+	}
+	for _, c := range fc.Requires {
+		comp.collectLiterals(c.E, alphabet, seen)
+	}
+	// two alphabets: the bytes of the string literals (longer words), then those plus the byte values the contract
+	// compares with (shorter words)
+	var alpha, small []byte
+	for b := byte(0); b < 255; b++ {
+		if alphabet[b] && len(alpha) < 9 {
+			alpha = append(alpha, b)
+		}
+		if comp.strBytes[b] && len(small) < 5 {
+			small = append(small, b)
+		}
+	}
+	// 3. the test: one input (the model's) or, without a model, every combination of short values
+	var b strings.Builder
+	fmt.Fprintf(&b, "package %s\n\nimport (\n\t\"encoding/json\"\n\t\"fmt\"\n\t\"path\"\n\t\"path/filepath\"\n\t\"strconv\"\n\t\"strings\"\n\t\"testing\"\n", fn.Pkg.Pkg.Name())
+	var paramCalls []string
+	for i, p := range ps {
+		if p.kind == "int" {
+			paramCalls = append(paramCalls, fmt.Sprintf("%s(a%d)", p.goType, i))
+		} else {
+			paramCalls = append(paramCalls, fmt.Sprintf("%s(a%d)", p.goType, i))
+		}
+	}
+	for path, name := range imports {
+		fmt.Fprintf(&b, "\t%s %q\n", name, path)
+	}
+	b.WriteString(")\n")
+	b.WriteString(goBuiltinHelpers)
+	for _, h := range comp.helpers {
+		b.WriteString(h)
+	}
+	goT := map[string]string{"string": "string", "int": "int64", "bool": "bool"}
+	var formal, actual, lens []string
+	for i, p := range ps {
+		formal = append(formal, fmt.Sprintf("a%d %s", i, goT[p.kind]))
+		actual = append(actual, fmt.Sprintf("a%d", i))
+		if p.kind == "string" {
+			lens = append(lens, fmt.Sprintf("len(a%d)", i))
+		}
+	}
+	// verifTry: runs the real function on one input; reports whether the obligation is violated on it
+	fmt.Fprintf(&b, "\nfunc verifTry(%s) (violated bool, out map[string]any) {\n\tout = map[string]any{}\n", strings.Join(formal, ", "))
+	b.WriteString("\tverifBound = int64(1)\n")
+	for _, l := range lens {
+		fmt.Fprintf(&b, "\tif int64(%s) > verifBound {\n\t\tverifBound = int64(%s)\n\t}\n", l, l)
+	}
+	fmt.Fprintf(&b, "\tif !(%s) {\n\t\tout[\"precondition\"] = false\n\t\treturn false, out\n\t}\n", pre)
+	fmt.Fprintf(&b, "\tdefer func() {\n\t\tif p := recover(); p != nil {\n\t\t\tout[\"panic\"] = fmt.Sprint(p)\n\t\t\tviolated = %v\n\t\t}\n\t}()\n", o.Kind == "safe")
+	var rs []string
+	for i := range rkinds {
+		rs = append(rs, fmt.Sprintf("r%d", i))
+	}
+	call := fn.Name() + "(" + strings.Join(paramCalls, ", ") + ")"
+	if len(rs) > 0 {
+		fmt.Fprintf(&b, "\t%s := %s\n", strings.Join(rs, ", "), call)
+	} else {
+		fmt.Fprintf(&b, "\t%s\n", call)
+	}
+	for i, k := range rkinds {
+		switch k {
+		case "error":
+			fmt.Fprintf(&b, "\tif r%d != nil {\n\t\tout[\"result.%d\"] = \"error: \" + r%d.Error()\n\t} else {\n\t\tout[\"result.%d\"] = nil\n\t}\n", i, i, i, i)
+		case "string":
+			fmt.Fprintf(&b, "\tout[\"result.%d\"] = string(r%d)\n\tif int64(len(r%d)) > verifBound {\n\t\tverifBound = int64(len(r%d))\n\t}\n", i, i, i, i)
+		default:
+			fmt.Fprintf(&b, "\tout[\"result.%d\"] = r%d\n", i, i)
+		}
+	}
+	if o.Kind == "post" {
+		fmt.Fprintf(&b, "\tholds := %s\n\tout[\"clause_holds\"] = holds\n\treturn !holds, out\n}\n", check)
+	} else {
+		b.WriteString("\treturn false, out\n}\n")
+	}
+	b.WriteString("\nfunc TestVerifReplay(t *testing.T) {\n\treport := func(found bool, input []any, out map[string]any, tried int) {\n\t\tdata, _ := json.Marshal(map[string]any{\"violated\": found, \"input\": input, \"output\": out, \"inputs_tried\": tried})\n\t\tfmt.Println(\"REPLAY-RESULT \" + string(data))\n\t}\n")
+	if args != nil {
+		var lits []string
+		for _, a := range args {
+			lits = append(lits, a.GoLit)
+		}
+		fmt.Fprintf(&b, "\tfound, out := verifTry(%s)\n\treport(found, []any{%s}, out, 1)\n}\n", strings.Join(lits, ", "), strings.Join(lits, ", "))
+	} else {
+		// enumeration: strings over the alphabet up to a length that keeps the product of the domains near 300 000
+		nStr := 0
+		for _, p := range ps {
+			if p.kind == "string" {
+				nStr++
+			}
+		}
+		lengthFor := func(n int, budget float64) int {
+			best := 0
+			for L := 1; L <= 10; L++ {
+				count, pow := 0.0, 1.0
+				for l := 0; l <= L; l++ {
+					count += pow
+					pow *= float64(n)
+				}
+				total := 1.0
+				for k := 0; k < nStr; k++ {
+					total *= count
+				}
+				if total <= budget {
+					best = L
+				}
+			}
+			return best
+		}
+		lenSmall, lenAll := 0, 0
+		if nStr > 0 {
+			lenSmall, lenAll = lengthFor(len(small), 150000), lengthFor(len(alpha), 150000)
+		}
+		fmt.Fprintf(&b, "\tvar words []string\n\tseen := map[string]bool{}\n\tvar gen func(alphabet []byte, prefix string, left int)\n\tgen = func(alphabet []byte, prefix string, left int) {\n\t\tif !seen[prefix] {\n\t\t\tseen[prefix] = true\n\t\t\twords = append(words, prefix)\n\t\t}\n\t\tif left == 0 {\n\t\t\treturn\n\t\t}\n\t\tfor _, c := range alphabet {\n\t\t\tgen(alphabet, prefix+string(rune(c)), left-1)\n\t\t}\n\t}\n\tgen(%#v, \"\", %d)\n\tgen(%#v, \"\", %d)\n\t_ = words\n\ttried := 0\n", small, lenSmall, alpha, lenAll)
+		for i, p := range ps {
+			switch p.kind {
+			case "string":
+				fmt.Fprintf(&b, "\tfor _, a%d := range words {\n", i)
+			case "int":
+				fmt.Fprintf(&b, "\tfor _, a%d := range []int64{-1, 0, 1, 2, 3} {\n", i)
+			case "bool":
+				fmt.Fprintf(&b, "\tfor _, a%d := range []bool{false, true} {\n", i)
+			}
+		}
+		var anys []string
+		for i := range ps {
+			anys = append(anys, fmt.Sprintf("a%d", i))
+		}
+		fmt.Fprintf(&b, "\ttried++\n\tif found, out := verifTry(%s); found {\n\t\treport(true, []any{%s}, out, tried)\n\t\treturn\n\t}\n", strings.Join(actual, ", "), strings.Join(anys, ", "))
+		for range ps {
+			b.WriteString("\t}\n")
+		}
+		b.WriteString("\treport(false, nil, nil, tried)\n}\n")
+	}
+	safe := strings.NewReplacer("/", "_", "*", "", "(", "", ")", "", "[", "_", "]", "_", " ", "", "$", "_", ">", "_", ":", "_", "#", "_", "@", "_", "~", "_").Replace(o.Name)
+	dir := filepath.Join(verifDir, "replays", r.cfg.Property)
+	os.MkdirAll(dir, 0o755)
+	testFile := filepath.Join(dir, safe+"_replay_test.go")
+	if err := os.WriteFile(testFile, []byte(b.String()), 0o644); err != nil {
+		return nil
+	}
+	pkgDir := strings.TrimPrefix(fn.Pkg.Pkg.Path(), "github.com/specterops/dawgs/")
+	cmd := exec.Command(filepath.Join(verifDir, "tools", "overlay_test.sh"), r.repo, pkgDir, testFile, "TestVerifReplay")
+	cmd.Env = append(os.Environ(), "VERIF_TEST_TIMEOUT=120s")
+	outb, _ := cmd.CombinedOutput()
+	rec := map[string]any{
+		"replay_test": testFile,
+		"replay":      fmt.Sprintf("tools/overlay_test.sh %s %s %s TestVerifReplay", r.repo, pkgDir, testFile),
+	}
+	if args != nil {
+		rec["model_input"] = args
+		rec["input_source"] = "the solver's model (get-value on the parameter terms)"
+	} else {
+		rec["input_source"] = fmt.Sprintf("no model from the solvers (%s); inputs enumerated: strings over the bytes %q of the contract's string literals and, shorter, over %q (with the byte values it compares with), lengths chosen to keep the run near 300000 calls; integers -1..3; both booleans", o.Result, string(small), string(alpha))
+		if note != "" {
+			rec["replay_note"] = note
+		}
+	}
+	if checked != "" {
+		rec["clause_evaluated_in_go"] = checked
+	}
+	var res map[string]any
+	for _, line := range strings.Split(string(outb), "\n") {
+		if i := strings.Index(line, "REPLAY-RESULT "); i >= 0 {
+			json.Unmarshal([]byte(line[i+len("REPLAY-RESULT "):]), &res)
+		}
+	}
+	if res == nil {
+		tail := string(outb)
+		if len(tail) > 600 {
+			tail = tail[len(tail)-600:]
+		}
+		rec["replay_note"] = "the replay test produced no result: " + tail
+		return rec
+	}
+	rec["real_code_run"] = res
+	if res["violated"] == true {
+		rec["verdict"] = "confirmed"
+		rec["failing_input"] = res["input"]
+		if o.Kind == "safe" {
+			rec["confirmed_by"] = "the real function panics on this input"
+		} else {
+			rec["confirmed_by"] = "the postcondition, compiled to Go, evaluates to false on the real function's output for this input"
+		}
+	} else if args != nil {
+		rec["replay_note"] = "the real code does not fail on the model's input: the model is an artefact of the abstraction (uninterpreted strings and functions); the obligation stays undischarged"
+	} else {
+		rec["replay_note"] = "no failing input among the enumerated ones; the obligation stays undischarged"
+	}
+	return rec
 }
